@@ -154,6 +154,7 @@ type item struct {
 	outs    []outcome
 	runs    int32
 	onstop  bool
+	free    bool // burst item: the function ends at once
 	entered chan int
 	release chan struct{}
 	done    chan error // blocking variants: the returned error
@@ -161,6 +162,8 @@ type item struct {
 	task    *modules.Task
 	afterWrite bool
 	lastOut outcome
+	busy    bool // task: queued or running
+	held    bool // inside its user function, waiting for `finish`
 	mu      sync.Mutex
 }
 
@@ -175,6 +178,16 @@ func (it *item) body(ctx context.Context) error {
 	it.lastOut = o
 	it.mu.Unlock()
 	it.entered <- k
+	if it.free {
+		if it.task != nil {
+			// Not instant: a task function that returns before the queue handler's watcher goroutine has read
+			// t.ctx makes the queue wait maxExecutionWait (1 min) for the next task (tasks.go "RACE CONDITION"
+			// comment; subject of C07, not of this property).
+			time.Sleep(3 * time.Millisecond)
+		}
+		runtime.Gosched()
+		return o.apply()
+	}
 	if it.onstop {
 		select {
 		case <-it.release:
@@ -199,14 +212,17 @@ type child struct {
 	items    map[string]*item
 	subject  string
 	started  bool
+	startOK  bool
+	down     bool
 	apiMode  bool
 	mgmt     bool
 	notifyIn int32
+	burstSeq int
 	scratch  string
 }
 
 const (
-	entryTimeout  = 30 * time.Second
+	entryTimeout  = 75 * time.Second // longer than maxExecutionWait (see body)
 	finishTimeout = 30 * time.Second
 	settleTimeout = 10 * time.Second
 	stopTimeout   = 12 * time.Second // modules' own wait for workers when stopping (default 1 min)
@@ -326,6 +342,44 @@ func (c *child) drain() string {
 	}
 }
 
+// drainSorted is drain for ops during which several goroutines report concurrently.
+func (c *child) drainSorted() string {
+	d := c.drain()
+	if d == "-" {
+		return d
+	}
+	rs := strings.Split(d, "+")
+	sort.Strings(rs)
+	return strings.Join(rs, "+")
+}
+
+func validName(n string) bool {
+	if n == "" || n[0] < 'A' || n[0] > 'Z' {
+		return false
+	}
+	for _, ch := range n[1:] {
+		if !(ch >= 'a' && ch <= 'z' || ch >= 'A' && ch <= 'Z' || ch >= '0' && ch <= '9') {
+			return false
+		}
+	}
+	return true
+}
+
+func (c *child) online(name string) bool {
+	st := modules.GetStatus()
+	return st != nil && st.Modules[name] != nil && st.Modules[name].Status == "online"
+}
+
+// taskBusy: a task item is queued, executing or held (the queue handler runs one task at a time).
+func (c *child) taskBusy() bool {
+	for _, it := range c.items {
+		if it.task != nil && it.busy {
+			return true
+		}
+	}
+	return false
+}
+
 // retStr classifies an error returned by a blocking run variant.
 func retStr(err error, o outcome) string {
 	if err == nil {
@@ -413,9 +467,12 @@ func (c *child) do(line string) string {
 	if len(f) == 0 {
 		return "bad-op"
 	}
+	if c.down {
+		return "bad-op"
+	}
 	switch f[0] {
 	case "mod": // mod <name> <prep> <start> <stop> [dep,dep]
-		if len(f) < 5 || len(f) > 6 || c.started || c.mod(f[1]) != nil {
+		if len(f) < 5 || len(f) > 6 || c.started || c.apiMode || !validName(f[1]) || c.mod(f[1]) != nil {
 			return "bad-op"
 		}
 		var fns [3]func() error
@@ -429,6 +486,11 @@ func (c *child) do(line string) string {
 		var deps []string
 		if len(f) == 6 {
 			deps = strings.Split(f[5], ",")
+			for _, d := range deps {
+				if c.mod(d) == nil {
+					return "bad-op"
+				}
+			}
 		}
 		md := &modDecl{name: f[1], prep: f[2], start: f[3], stop: f[4]}
 		md.m = modules.Register(f[1], fns[0], fns[1], fns[2], deps...)
@@ -439,7 +501,7 @@ func (c *child) do(line string) string {
 		return "ok"
 
 	case "api": // bring the real api module (with database and config) into the process; subject := api
-		if len(f) != 1 || c.started || c.apiMode {
+		if len(f) != 1 || c.started || c.apiMode || len(c.mods) > 0 {
 			return "bad-op"
 		}
 		c.apiMode = true
@@ -461,7 +523,7 @@ func (c *child) do(line string) string {
 		return "ok"
 
 	case "mgmt": // mgmt <name>=on|off ...   (module management; must precede start)
-		if c.started || c.mgmt || len(f) < 2 {
+		if c.started || c.mgmt || c.apiMode || len(f) < 2 {
 			return "bad-op"
 		}
 		for _, a := range f[1:] {
@@ -501,6 +563,23 @@ func (c *child) do(line string) string {
 			}
 		}
 		err := modules.Start()
+		c.startOK = err == nil
+		if err != nil {
+			// Start returns on the first failing report while other routines may still be running
+			// (that is C01's business); wait until the healthy modules have come to rest.
+			waitUntil(settleTimeout, func() bool {
+				st := modules.GetStatus()
+				for _, m := range c.mods {
+					if tokFails(m.prep) || tokFails(m.start) || st == nil || st.Modules[m.name] == nil {
+						continue
+					}
+					if s := st.Modules[m.name].Status; s == "preparing" || s == "starting" {
+						return false
+					}
+				}
+				return true
+			})
+		}
 		return fmt.Sprintf("start ret=%s reps=%s", ctrlRetStr(err), c.drain())
 
 	case "manage":
@@ -515,12 +594,19 @@ func (c *child) do(line string) string {
 			return "bad-op"
 		}
 		t0 := time.Now()
+		for _, it := range c.items {
+			if it.held && !it.onstop {
+				c.down = true
+				return "shutdown-with-held-work"
+			}
+		}
 		err := modules.Shutdown()
+		c.down = true
 		slow := "no"
 		if time.Since(t0) > slowStop {
 			slow = "yes"
 		}
-		return fmt.Sprintf("shutdown ret=%s reps=%s slow=%s st=%s", ctrlRetStr(err), c.drain(), slow, c.statuses())
+		return fmt.Sprintf("shutdown ret=%s reps=%s slow=%s st=%s", ctrlRetStr(err), c.drainSorted(), slow, c.statuses())
 
 	case "status":
 		if len(f) != 1 {
@@ -541,12 +627,22 @@ func (c *child) do(line string) string {
 		return fmt.Sprintf("cnt=%s others=%s", c.counters(), oc)
 
 	case "spawn": // spawn <id> <kind> <outcomes> [onstop|afterwrite]
-		if len(f) < 4 || len(f) > 5 || !c.started || c.items[f[1]] != nil {
+		if len(f) < 4 || len(f) > 5 || !c.startOK || c.items[f[1]] != nil || !c.online(c.subject) {
 			return "bad-op"
 		}
 		outs, ok := parseOutcomes(f[3])
-		if !ok {
+		if !ok || !knownKind(f[2]) {
 			return "bad-op"
+		}
+		isAPI, isTask := strings.HasPrefix(f[2], "api-"), strings.HasPrefix(f[2], "task-")
+		if isAPI != c.apiMode || (isTask && c.taskBusy()) || (strings.HasPrefix(f[2], "hook-") && !c.online("B")) {
+			return "bad-op"
+		}
+		if len(f) == 5 {
+			raw := f[2] == "api-handlerfunc" || f[2] == "api-rawhandler" || f[2] == "api-rawfunc"
+			if (f[4] == "afterwrite" && !raw) || (f[4] == "onstop" && isAPI) {
+				return "bad-op"
+			}
 		}
 		it := &item{id: f[1], kind: f[2], outs: outs, entered: make(chan int, 64), release: make(chan struct{}, 64),
 			done: make(chan error, 1), http: make(chan int, 1)}
@@ -564,10 +660,12 @@ func (c *child) do(line string) string {
 			return "bad-op"
 		}
 		c.items[it.id] = it
+		it.busy = it.task != nil
 		return "spawn " + c.awaitEntry(it) + " cnt=" + c.counters().String()
 
 	case "requeue": // requeue <id> <task-kind> <outcomes>: queue a task again after it ran
-		if len(f) != 4 || c.items[f[1]] == nil || c.items[f[1]].task == nil {
+		if len(f) != 4 || c.items[f[1]] == nil || c.items[f[1]].task == nil || !strings.HasPrefix(f[2], "task-") ||
+			!knownKind(f[2]) || !c.startOK || !c.online(c.subject) || c.taskBusy() {
 			return "bad-op"
 		}
 		outs, ok := parseOutcomes(f[3])
@@ -575,14 +673,81 @@ func (c *child) do(line string) string {
 			return "bad-op"
 		}
 		it := c.items[f[1]]
-		it.outs = append(it.outs[:atomic.LoadInt32(&it.runs)], outs...)
+		it.busy = true
+		it.outs = append(it.outs, outs...)
 		if !queueTask(it.task, f[2]) {
 			return "bad-op"
 		}
 		return "requeue " + c.awaitEntry(it) + " cnt=" + c.counters().String()
 
+	case "burst": // burst <kind>=<outcomes> ...: free-running items, all at once; wait until all of them are through
+		if len(f) < 2 || !c.startOK || !c.online(c.subject) {
+			return "bad-op"
+		}
+		var its []*item
+		for k, a := range f[1:] {
+			kv := strings.SplitN(a, "=", 2)
+			if len(kv) != 2 || !knownKind(kv[0]) {
+				return "bad-op"
+			}
+			outs, ok := parseOutcomes(kv[1])
+			isAPI, isTask := strings.HasPrefix(kv[0], "api-"), strings.HasPrefix(kv[0], "task-")
+			if !ok || isAPI != c.apiMode || (isTask && c.taskBusy()) || (strings.HasPrefix(kv[0], "hook-") && !c.online("B")) {
+				return "bad-op"
+			}
+			c.burstSeq++
+			its = append(its, &item{id: fmt.Sprintf("b%d-%d", c.burstSeq, k), kind: kv[0], outs: outs, free: true,
+				entered: make(chan int, 256), release: make(chan struct{}, 1), done: make(chan error, 1), http: make(chan int, 1)})
+		}
+		for _, it := range its {
+			if !c.launch(it) {
+				return "burst launch-failed"
+			}
+			c.items[it.id] = it
+		}
+		res := make([]string, len(its))
+		for i, it := range its {
+			res[i] = "-"
+			select {
+			case <-it.entered:
+			case <-time.After(entryTimeout):
+				res[i] = "noentry"
+				continue
+			}
+			switch {
+			case blocking(it.kind):
+				select {
+				case err := <-it.done:
+					it.mu.Lock()
+					o := it.lastOut
+					it.mu.Unlock()
+					res[i] = retStr(err, o)
+				case <-time.After(finishTimeout):
+					res[i] = "noreturn"
+				}
+			case strings.HasPrefix(it.kind, "api-"):
+				select {
+				case code := <-it.http:
+					res[i] = strconv.Itoa(code)
+				case <-time.After(finishTimeout):
+					res[i] = "noreturn"
+				}
+			}
+		}
+		zero := cnt{}
+		waitUntil(settleTimeout, func() bool { return c.counters() == zero })
+		runs := make([]string, len(its))
+		for i, it := range its {
+			if it.task != nil {
+				waitUntil(finishTimeout, func() bool { return !it.task.VerifC06Executing() })
+			}
+			runs[i] = strconv.Itoa(int(atomic.LoadInt32(&it.runs)))
+		}
+		return fmt.Sprintf("burst res=%s runs=%s reps=%s cnt=%s", strings.Join(res, ","), strings.Join(runs, ","),
+			c.drainSorted(), c.counters())
+
 	case "finish": // finish <id>: let the held user function end with its programmed outcome, wait for the item
-		if len(f) != 2 || c.items[f[1]] == nil {
+		if len(f) != 2 || c.items[f[1]] == nil || !c.items[f[1]].held {
 			return "bad-op"
 		}
 		return c.finish(c.items[f[1]])
@@ -590,9 +755,18 @@ func (c *child) do(line string) string {
 	return "bad-op"
 }
 
+var kinds = map[string]bool{"runworker": true, "startworker": true, "svc": true, "task-queue": true, "task-prio": true,
+	"task-asap": true, "task-sched": true, "task-repeat": true, "mt-run-high": true, "mt-run-med": true, "mt-run-low": true,
+	"mt-start-high": true, "mt-start-med": true, "mt-start-low": true, "hook-trigger": true, "hook-inject": true,
+	"api-action": true, "api-data": true, "api-struct": true, "api-record": true, "api-handlerfunc": true,
+	"api-rawhandler": true, "api-rawfunc": true}
+
+func knownKind(k string) bool { return kinds[k] }
+
 func (c *child) awaitEntry(it *item) string {
 	select {
 	case <-it.entered:
+		it.held = true
 		return "ok"
 	case <-time.After(entryTimeout):
 		return "noentry"
@@ -787,6 +961,7 @@ func blocking(kind string) bool {
 // finish releases the held run and waits until the managed execution has completed (or restarted).
 func (c *child) finish(it *item) string {
 	before := c.counters()
+	it.held = false
 	it.release <- struct{}{}
 	ret, httpS, next, exec := "-", "-", "-", "-"
 	it.mu.Lock()
@@ -817,6 +992,7 @@ func (c *child) finish(it *item) string {
 			select {
 			case <-it.entered:
 				next = "reentered"
+				it.held = true
 				break loop
 			case <-deadline:
 				next = "timeout"
@@ -827,6 +1003,7 @@ func (c *child) finish(it *item) string {
 					select {
 					case <-it.entered:
 						next = "reentered"
+						it.held = true
 					default:
 						next = "done"
 					}
@@ -838,6 +1015,7 @@ func (c *child) finish(it *item) string {
 		waitUntil(finishTimeout, func() bool { return c.counters().t < before.t })
 		if waitUntil(finishTimeout, func() bool { return !it.task.VerifC06Executing() }) {
 			exec = "false"
+			it.busy = false
 		} else {
 			exec = "true"
 		}
@@ -850,4 +1028,3 @@ func (c *child) finish(it *item) string {
 		c.drain(), repStr(modules.GetLastReportedError()), c.counters())
 }
 
-var _ = sort.Strings
